@@ -13,12 +13,18 @@ TEXTS = {
         "technique": "Lean 4 proof over executable model + differential correspondence + per-case contract evaluation",
     },
     "C02": {
-        "text": "Lean theorems: unconditional line break after every single-line comment in the reconstructor; exactness of the three "
-                "documented content normalisations. The scanner-stability part is decided by a re-scan oracle on every well-formed "
-                "generated program in every layout (partial).",
-        "design_ref": "DESIGN.md section 5 (C02)",
-        "note": "relex_stable and the spacing non-gluing table are not yet theorems.",
-        "technique": "Lean 4 proof of sub-claims over executable model + correspondence + re-scan oracle",
+        "text": "Lean 4 theorems on the exact lexer and reconstructor models: the scanner is local (scanner_is_local: for every token "
+                "class, state and length a token is decided by its own bytes and at most three bytes of lookahead, incl. nested "
+                "directive expressions, multi-line strings, assembler tokens); hence C02_relex / C02_format: when every emitted token is "
+                "scanned back inside its three-byte window (decidable contract relexB, evaluated by the driver on every well-formed "
+                "case, field rx) scanning the whole output yields exactly the emitted token vector with the input's kinds - no gluing, "
+                "splitting or absorption. Plus: unconditional line break after every single-line comment; exactness of the documented "
+                "content normalisations. That the spacing decisions satisfy the contract on all well-formed programs is grammar "
+                "knowledge: contract per case + re-scan oracle on the real code (exact normalisations only).",
+        "design_ref": "DESIGN.md section 5 (C02), 12.3",
+        "note": "Assumes (checked per case): relexB on the final token vector; parser kinds and wrapper decisions come from the real run. "
+                "One defect found and repaired (F28, b68b46e).",
+        "technique": "Lean 4 proof over executable model + per-case contract evaluation + differential correspondence + re-scan oracle",
     },
     "C03": {
         "text": "Lean theorems for the fixpoint lemmas (lower-casing, trimming, blank-line clamp, newline read-back, idempotence of the line-comment and compiler-directive rules and of the whole comment formatter); the composition relies "
@@ -36,8 +42,10 @@ TEXTS = {
         "technique": "Lean 4 proof of rendering + specification-level oracle from the generator's AST marks",
     },
     "C06": {
-        "text": "Lean theorems: whitespace reduction to counters, layout-invariance of TokenSpacing for all kind sequences, blank-line "
-                "clamp; end-to-end layout independence decided by formatting pairs of re-layouts of the same program (partial).",
+        "text": "Lean theorems: whitespace reduction to counters, layout-invariance of TokenSpacing for all kind sequences "
+                "(spacing_layout_invariant: amount of blanks; spacing_space_or_break: a space and a line break with any indentation "
+                "are the same gap - true since repair b68b46e), blank-line clamp; end-to-end layout independence decided by formatting "
+                "pairs of re-layouts of the same program (partial).",
         "design_ref": "DESIGN.md section 5 (C06)",
         "note": "Non-interference of the parser and the wrapper are contracts checked by the pair oracle.",
         "technique": "Lean 4 proof of sub-claims over executable model + metamorphic relayout oracle",
@@ -155,12 +163,12 @@ TEXTS = {
     "C13": {
         "text": "Machine-checked Lean 4 theorems on an exact model of the lexer: totality (lex_total), all boundaries on character boundaries (lex_char_boundaries), losslessness, single last end-of-file token, blank-only "
                 "leading whitespace, non-blank token starts, AVX2 identifier routine = scalar routine for every input, keyword lookup = "
-                "table specification for every word; all for inputs of any length. The model is tied to DelphiLexer::lex by "
+                "table specification for every word, position independence (scan_is_position_independent: a token does not depend on what follows it beyond three bytes); all for inputs of any length. The model is tied to DelphiLexer::lex by "
                 "token-by-token differential execution on every run.",
         "design_ref": "DESIGN.md section 5 (C13)",
         "note": "Trusted: Lean kernel (axioms propext, Classical.choice, Quot.sound only), the translator of the keyword/dispatch tables, "
-                "the hand-written lexer model (validated differentially, not verified against the Rust code), rustc. Char-boundary "
-                "and totality theorems are still open (stated in Props/C13.lean as TODO).",
+                "the hand-written lexer model (validated differentially, not verified against the Rust code), rustc. An independent "
+                "by-construction oracle (tokfam: tokens of every class built from the lexical rules) checks the real scanner too.",
         "technique": "Lean 4 proof over executable model + differential correspondence",
     },
 }
